@@ -517,8 +517,83 @@ def judge_case(gname, family, lines, targets):
 
 
 def replay(w, ctx):
+  if w.get("family") == "Uanon":
+    return judge_anon(w["lines"])
   res, info = judge_case(w["graph"], w["family"], w["lines"], w["targets"])
   return [v for _, _, v in res]
+
+
+# ---------------------------------------------------------------------------
+# unnamed edges: an edge without identifier is still an edge of the induced
+# set (family Uanon; its own small oracle: the induced edges of a set are the
+# E lines both of whose segments are induced segments, as a MULTISET of texts)
+
+def anon_documents():
+  import itertools
+  T_ = "\t".join
+  segs = [T_(["S", n, "10", "*"]) for n in "abc"]
+  cand = [T_(["E", "*", "a+", "b+", "8", "10$", "0", "2", "*"]),
+          T_(["E", "*", "a+", "b+", "7", "10$", "0", "3", "*"]),     # parallel
+          T_(["E", "*", "b+", "c-", "8", "10$", "8", "10$", "*"]),
+          T_(["E", "*", "c-", "a+", "0", "2", "0", "2", "*"]),
+          T_(["E", "*", "a+", "a-", "8", "10$", "8", "10$", "*"]),   # hairpin
+          T_(["E", "e9", "a-", "b-", "0", "2", "8", "10$", "*"])]    # named
+  groups = [[T_(["U", "u", "a b c"])], [T_(["U", "u", "a b"])],
+            [T_(["U", "v", "a"]), T_(["U", "u", "v b c"])],
+            [T_(["O", "o", "a+ b+"]), T_(["U", "u", "o c"])]]
+  docs = []
+  for k in (2, 3, 4):
+    for es in itertools.combinations(cand, k):
+      for gr in groups:
+        docs.append(segs + list(es) + gr)
+        docs.append(gr + list(es) + segs)
+  return docs
+
+
+def judge_anon(lines):
+  out = []
+  try:
+    g = gfapy.Gfa(version="gfa2")
+    for l in lines:
+      g.add_line(l)
+    u = g.line("u")
+    segs = sorted(x.name for x in u.induced_segments_set)
+    got = sorted(str(e) for e in u.induced_edges_set)
+    both = sorted(str(x) for x in u.induced_set)
+  except gfapy.Error as e:
+    # a path over parallel edges is ambiguous: an error is acceptable there
+    return out
+  except Exception as e:
+    return [mkviolation("foreign-exception", {"graph": "anon", "groups":
+            " ; ".join(l.replace("\t", " ") for l in lines if l[0] in "UO"),
+            "sig": type(e).__name__}, {"family": "Uanon", "lines": lines},
+            "induced set", type(e).__name__)]
+  want = sorted(l for l in lines if l.startswith("E\t") and
+                l.split("\t")[2][:-1] in segs and l.split("\t")[3][:-1] in segs)
+  if got != want or len(both) != len(segs) + len(want):
+    edges = " ; ".join(l.replace("\t", " ") for l in lines if l[0] == "E")
+    out.append(mkviolation(
+        "induced-set", {"graph": "anon", "groups": " ; ".join(
+            l.replace("\t", " ") for l in lines if l[0] in "UO"),
+            "edges": edges, "sig": "unnamed-edges"},
+        {"family": "Uanon", "lines": lines}, want, got,
+        "import gfapy\ng = gfapy.Gfa({!r}, version='gfa2')\n"
+        "print([str(e) for e in g.line('u').induced_edges_set])".format(lines)))
+  return out
+
+
+def work_anon(chunk):
+  res = new_result()
+  for lines in chunk:
+    res["evaluations"] += 1
+    res["transitions"] += len(lines) + 3
+    res["traces"] += 1
+    vs = judge_anon(lines)
+    res["states"].add(h(lines))
+    res["nontrivial"].add(h(lines))
+    res["outcomes"].add("Uanon:" + ("ok" if not vs else vs[0]["clause"]))
+    res["violations"].extend(vs[:1])
+  return res
 
 
 # ---------------------------------------------------------------------------
@@ -900,6 +975,19 @@ def run(ctx):
   for sig in sorted(best):
     for size, v in best[sig]:
       ctx.violation(v)
+  ad = anon_documents()
+  kept = 0
+  for r in ctx.pmap(work_anon, [ad[i:i + 20] for i in range(0, len(ad), 20)],
+                    chunksize=1):
+    vs = r.pop("violations")
+    fam_cases["Uanon"] = fam_cases.get("Uanon", 0) + r["evaluations"]
+    ctx.merge(r)
+    for v in vs:
+      if kept < KEEP_PER_SIG:
+        ctx.violation(v)
+        kept += 1
+      else:
+        ctx.n_violations += 1
   ctx.extra["families"] = fam_cases
   ctx.extra["tasks"] = len(tasks)
   ctx.extra["violating_cases_by_clause"] = counts
